@@ -15,6 +15,9 @@ package avs
 //@   flag havoc=GetAVSParamsFromInputs,UpdateAVSInfo
 //@   before[C10.pavs.register.bind]  UpdateAVSInfo requires arg_params.AvsAddress == ethaddrstr(old(contract.CallerAddress))
 //@   before[C10.pavs.register.owner] UpdateAVSInfo requires contains(arg_params.AvsOwnerAddress, arg_params.CallerAddress)
+// ... and a caller that is not a listed owner is REJECTED: the method reports an error (which Run turns into `false`),
+// it does not end without an error and without a result.
+//@   ensures[C10.pavs.register.rejected] !defined(res_UpdateAVSInfo_0) ==> err != nil
 
 //@ func (Precompile).DeregisterAVS
 //@   names ctx, origin, contract, stateDB, method, args
